@@ -72,6 +72,7 @@ func genPatcherExit(w *World, res *CheckResult) {
 	e.CallHook = func(e *Exec, st *State, fr *Frame, cc *ssaCallCommon, callee *ssaFunction, args []*Value, k func(*State, []*Value)) bool {
 		if shortName(callee) == "conf.FindSuitableOperatorOverload" && fr.fn == fn {
 			lArg, rArg = args[2].One(), args[3].One()
+			st.ghost["overload-resolved"] = True
 			t := Fresh("ovl_type", SInt)
 			nameRes = Fresh("ovl_name", SStr)
 			okRes = Fresh("ovl_ok", SBool)
@@ -110,12 +111,24 @@ func genPatcherExit(w *World, res *CheckResult) {
 	line0, col0, typ0 := st.Load(LocField(b, 0), SBV(64)), st.Load(LocField(b, 1), SBV(64)), st.Load(LocField(b, 2), SInt)
 	entry := st.Clone()
 	fst := funT.Underlying().(*typesStruct)
+	// has0: the operator of the binary node has an entry in p.ops (evaluated on the entry state)
+	var has0 *Term
+	if pp, ok := fn.Params[0].Type().Underlying().(*types.Pointer); ok {
+		if pst, ok := pp.Elem().Underlying().(*typesStruct); ok {
+			opsLoc := st.Load(LocField(pv.One(), offOf(pst, "ops")), SLoc)
+			opStr := st.Load(LocField(b, offOf(bst, "Operator")), SStr)
+			has0 = And(Not(Eq(opsLoc, NilLoc)), Select(st.Sel(st.MapHas(SStr), opsLoc), opStr))
+		}
+	}
 	e.call(st, fn, []*Value{pv, slot}, nil, 0, nil,
 		func(st *State, _ []*Value) {
 			cur := st.Load(slot.One(), SVal)
 			if okRes == nil || st.Simp(okRes) != True {
 				// not replaced on this path
 				e.AddVC(name+"/post[unchanged-unless-overloaded]", "post", fn.String(), st, Not(Eq(cur, old)), "the slot keeps the binary node when no overload fits")
+				if st.ghost["overload-resolved"] == nil && has0 != nil {
+					e.AddVC(name+"/post[resolves-when-operator-mapped]", "post", fn.String(), st, has0, "a binary node whose operator has an overload table is always put to the overload resolution, whatever its operand types (nil included)")
+				}
 				_ = entry
 				return
 			}
